@@ -942,9 +942,11 @@ func closeSubs(subs []*subscriptionState) {
 // done closes the completed channel to signal that the subscription is finished.
 // It does not send any downstream messages — Complete/Error are sent separately.
 func (s *subscriptionState) done() {
+	verifPoint("sub.close.begin", uint64(s.id.SubscriptionID), 0)
 	s.writeMu.Lock()
 	defer s.writeMu.Unlock()
 	close(s.completed)
+	verifPoint("sub.closed", uint64(s.id.SubscriptionID), 0)
 }
 
 // complete delivers a "subscription done" signal to the downstream writer.
@@ -965,6 +967,7 @@ func (s *subscriptionState) error(data []byte) {
 
 // writeError delivers a formatted error to the downstream writer under writeMu.
 func (s *subscriptionState) writeError(w AsyncErrorWriter, ctx *Context, err error, response *GraphQLResponse) {
+	verifPoint("sub.werr.begin", uint64(s.id.SubscriptionID), 0)
 	s.writeMu.Lock()
 	defer s.writeMu.Unlock()
 	if s.removed.Load() {
@@ -976,6 +979,7 @@ func (s *subscriptionState) writeError(w AsyncErrorWriter, ctx *Context, err err
 // sendHeartbeat sends a keep-alive frame to the downstream writer under writeMu.
 // @TODO: this is bad, see ENG-9356
 func (s *subscriptionState) sendHeartbeat() error {
+	verifPoint("sub.hb.begin", uint64(s.id.SubscriptionID), 0)
 	s.writeMu.Lock()
 	defer s.writeMu.Unlock()
 	if s.removed.Load() {
@@ -985,6 +989,8 @@ func (s *subscriptionState) sendHeartbeat() error {
 }
 
 func (r *Resolver) executeSubscriptionUpdate(resolveCtx *Context, sub *subscriptionState, sharedInput []byte) {
+	defer verifPoint("sub.update.end", uint64(sub.id.SubscriptionID), uint64(len(sharedInput)))
+	verifPoint("sub.update.begin", uint64(sub.id.SubscriptionID), uint64(len(sharedInput)))
 	if r.options.Debug {
 		fmt.Printf("resolver:trigger:subscription:update:%d\n", sub.id.SubscriptionID)
 	}
@@ -1044,6 +1050,7 @@ func (r *Resolver) executeSubscriptionUpdate(resolveCtx *Context, sub *subscript
 	}
 
 	sub.writeMu.Lock()
+	verifPoint("sub.write.locked", uint64(sub.id.SubscriptionID), verifBool(sub.removed.Load()))
 	if sub.removed.Load() {
 		sub.writeMu.Unlock()
 		r.resolveArenaPool.Release(resolveArena)
@@ -1202,6 +1209,7 @@ func (r *Resolver) addSubscription(triggerID uint64, add *addSubscription) error
 		}
 		// Register first so startup hooks can deliver initial data via UpdateSubscription.
 		r.registerSubscriptionLocked(trig, s)
+		verifPoint("sub.add", uint64(add.id.SubscriptionID), 0)
 		// Execute the startup hooks in a goroutine to avoid holding the lock.
 		go func() {
 			if err := r.executeStartupHooks(add, trig.updater); err != nil {
@@ -1236,8 +1244,11 @@ func (r *Resolver) addSubscription(triggerID uint64, add *addSubscription) error
 	if r.reporter != nil {
 		r.reporter.SubscriptionCountInc(1)
 	}
+	verifPoint("sub.add", uint64(add.id.SubscriptionID), 1)
 
 	go func() {
+		defer verifPoint("trig.start.end", triggerID, uint64(add.id.SubscriptionID))
+		verifPoint("trig.start.begin", triggerID, uint64(add.id.SubscriptionID))
 		if r.options.Debug {
 			fmt.Printf("resolver:trigger:start:%d\n", triggerID)
 		}
@@ -1279,12 +1290,15 @@ func (r *Resolver) getTrigger(id uint64) (*trigger, bool) {
 func (r *Resolver) markTriggerInitialized(triggerID uint64) {
 	trig, ok := r.getTrigger(triggerID)
 	if !ok {
+		verifPoint("trig.init", triggerID, 0)
 		return
 	}
+	verifPoint("trig.init.found", triggerID, 0)
 	trig.initialized.Store(true)
 	if r.reporter != nil {
 		r.reporter.TriggerCountInc(1)
 	}
+	verifPoint("trig.init", triggerID, 1)
 }
 
 // doneTriggerFromUpdater performs cleanup for a trigger from a datasource/updater goroutine.
@@ -1293,6 +1307,7 @@ func (r *Resolver) doneTriggerFromUpdater(triggerID uint64) {
 	if r.options.Debug {
 		fmt.Printf("resolver:trigger:shutdown:%d\n", triggerID)
 	}
+	verifPoint("trig.done.begin", triggerID, 0)
 	r.mu.Lock()
 	res := r.detachTriggerLocked(triggerID)
 	if r.reporter != nil {
@@ -1305,6 +1320,7 @@ func (r *Resolver) doneTriggerFromUpdater(triggerID uint64) {
 	closeSubs(res.toClose)
 	if res.triggerCancel != nil {
 		res.triggerCancel()
+		verifPoint("trig.cancel", triggerID, 0)
 	}
 }
 
@@ -1319,6 +1335,7 @@ func (r *Resolver) handleTriggerComplete(triggerID uint64) {
 
 	for _, s := range subs {
 		if !s.removed.Load() {
+			verifPoint("sub.complete.checked", uint64(s.id.SubscriptionID), 0)
 			s.complete()
 		}
 	}
@@ -1335,6 +1352,7 @@ func (r *Resolver) handleTriggerError(triggerID uint64, data []byte) {
 
 	for _, s := range subs {
 		if !s.removed.Load() {
+			verifPoint("sub.error.checked", uint64(s.id.SubscriptionID), 0)
 			s.error(data)
 		}
 	}
@@ -1360,6 +1378,7 @@ func (r *Resolver) removeClient(id ConnectionID) removeClientResult {
 	}
 	for _, sid := range ids {
 		res := r.removeSubscriptionLocked(sid)
+		verifPoint("sub.remove", uint64(sid.SubscriptionID), verifRemoveFlags(res))
 		removed += res.removed
 		toClose = append(toClose, res.toClose...)
 		if res.triggerCancel != nil {
@@ -1437,6 +1456,7 @@ func (r *Resolver) removeSubscriptionLocked(id SubscriptionIdentifier) removeRes
 func (r *Resolver) detachTriggerLocked(id uint64) removeResult {
 	trig, ok := r.triggers[id]
 	if !ok {
+		verifPoint("trig.detach", id, 0)
 		return removeResult{}
 	}
 
@@ -1455,6 +1475,7 @@ func (r *Resolver) detachTriggerLocked(id uint64) removeResult {
 	trig.mu.Unlock()
 
 	delete(r.triggers, id)
+	verifPoint("trig.detach", id, uint64(removed)<<1|1)
 
 	return removeResult{
 		removed:       removed,
@@ -1496,6 +1517,7 @@ func (r *Resolver) handleTriggerUpdate(id uint64, data []byte) {
 	}
 
 	subs, filterErrors := trig.filterSubscriptions(data)
+	verifPoint("trig.fanout", id, uint64(len(subs)))
 
 	for _, fe := range filterErrors {
 		fe.sub.writeError(r.errorFormatter, fe.ctx, fe.err, fe.response)
@@ -1559,16 +1581,20 @@ func (r *Resolver) heartbeatTriggerSubscriptions(id uint64) {
 }
 
 func (r *Resolver) shutdownResolver() {
+	defer verifPoint("shutdown.end", 0, 0)
+	verifPoint("shutdown.begin", 0, 0)
 	if r.options.Debug {
 		fmt.Printf("resolver:trigger:shutdown\n")
 	}
 	r.mu.Lock()
 	if r.shutdown {
+		verifPoint("shutdown.marked", 0, 0)
 		r.mu.Unlock()
 		return
 	}
 
 	r.shutdown = true
+	verifPoint("shutdown.marked", 1, 0)
 	triggerIDs := make([]uint64, 0, len(r.triggers))
 	for id := range r.triggers {
 		triggerIDs = append(triggerIDs, id)
@@ -1606,6 +1632,7 @@ func (r *Resolver) shutdownResolver() {
 	closeSubs(allToClose)
 	for _, cancel := range cancels {
 		cancel()
+		verifPoint("trig.cancel", 0, 0)
 	}
 
 	if r.options.Debug {
@@ -1645,12 +1672,15 @@ type SubscriptionIdentifier struct {
 }
 
 func (r *Resolver) UnsubscribeSubscription(id SubscriptionIdentifier) error {
+	verifPoint("sub.unsub.begin", uint64(id.SubscriptionID), 0)
 	r.mu.Lock()
 	if r.shutdown {
+		verifPoint("sub.remove", uint64(id.SubscriptionID), 16)
 		r.mu.Unlock()
 		return r.ctx.Err()
 	}
 	res := r.removeSubscriptionLocked(id)
+	verifPoint("sub.remove", uint64(id.SubscriptionID), verifRemoveFlags(res))
 	if r.reporter != nil {
 		r.reporter.SubscriptionCountDec(res.removed)
 		if res.triggerCancel != nil && res.initialized {
@@ -1661,6 +1691,7 @@ func (r *Resolver) UnsubscribeSubscription(id SubscriptionIdentifier) error {
 	closeSubs(res.toClose)
 	if res.triggerCancel != nil {
 		res.triggerCancel()
+		verifPoint("trig.cancel", uint64(id.SubscriptionID), 0)
 	}
 	return nil
 }
@@ -1670,6 +1701,7 @@ func (r *Resolver) UnsubscribeClient(connectionID ConnectionID) error {
 	closeSubs(res.toClose)
 	for _, cancel := range res.cancels {
 		cancel()
+		verifPoint("trig.cancel", uint64(connectionID), 0)
 	}
 	return nil
 }
